@@ -33,6 +33,12 @@ var solvers = []solverSpec{
 	{"cvc5", func(f string, t int) []string {
 		return []string{"cvc5", fmt.Sprintf("--tlimit=%d", t*1000), "--produce-models", f}
 	}},
+	// cvc5 translating bit-vectors to integers: decides the linear 64-bit length
+	// arithmetic of the decoders' consumption contracts, which bit-blasting does
+	// not finish. Only its unsat answers are used.
+	{"cvc5-bvint", func(f string, t int) []string {
+		return []string{"cvc5", fmt.Sprintf("--tlimit=%d", t*1000), "--solve-bv-as-int=sum", f}
+	}},
 }
 
 // wallFactor: wall-clock backstop as a multiple of the CPU-time limit.
@@ -46,7 +52,9 @@ func portfolio(script string, short bool) []solverSpec {
 	quantified := strings.Contains(script, "(forall ") || strings.Contains(script, "(exists ")
 	var res []solverSpec
 	for _, sp := range solvers {
-		if sp.name == "z3-new-intblast" && quantified {
+		if sp.name == "z3-new-intblast" {
+			// withdrawn altogether: it also answered sat on quantifier-free queries that
+			// z3 5.1 (default), z3 4.8.12 and cvc5 all refute (C15, supernetIPv4)
 			continue
 		}
 		if short && sp.name != "z3-new" && sp.name != "z3-new-intblast" && !(quantified && sp.name == "z3-new-qi") {
@@ -145,6 +153,12 @@ func race(file string, sps []solverSpec, timeoutS int) (solveOut, []solveOut) {
 	best.answer = "unknown"
 	for range sps {
 		o := <-ch
+		if o.answer == "sat" && (o.solver == "cvc5-bvint" || o.solver == "z3-new-qi") {
+			// these configurations are used to refute only: a model from the integer
+			// translation, or from a run without model-based instantiation, is not
+			// taken as a counterexample
+			o.answer = "unknown"
+		}
 		all = append(all, o)
 		if o.answer == "sat" || o.answer == "unsat" {
 			cancel()
@@ -237,7 +251,7 @@ func solveOne(i int, o *Obligation, cfg solveCfg) {
 		if cfg.tier == "thorough" && !o.ExpectSat {
 			// second opinion from a different solver binary
 			for _, sp := range solvers {
-				if sp.name == r.solver || strings.HasPrefix(sp.name, "z3-new") && strings.HasPrefix(r.solver, "z3-new") {
+				if sp.name == r.solver || strings.HasPrefix(sp.name, "z3-new") && strings.HasPrefix(r.solver, "z3-new") || strings.HasPrefix(sp.name, "cvc5") && strings.HasPrefix(r.solver, "cvc5") {
 					continue // same binary
 				}
 				r2 := runSolver(context.Background(), sp, file, cfg.fullT)
@@ -333,7 +347,7 @@ func getModel(file, script string, o *Obligation, cfg solveCfg) {
 	}
 	mfile := strings.TrimSuffix(file, ".smt2") + ".model.smt2"
 	os.WriteFile(mfile, []byte(b.String()), 0o644)
-	for _, sp := range []solverSpec{solvers[0], solvers[1]} {
+	for _, sp := range []solverSpec{solvers[0]} {
 		r := runSolver(context.Background(), sp, mfile, cfg.fullT)
 		if r.answer != "sat" {
 			continue
